@@ -423,7 +423,9 @@ def run_property(prop, tier="quick", seed=0, jobs=None, rebaseline=False, only=N
     evdir = os.environ.get("VERIF_EVIDENCE_DIR") or (
         os.path.join(VERIF, "evidence") if os.path.realpath(ev["repo"]) == "/repo" else os.path.join(ev["repo"], ".verif-evidence"))
     os.makedirs(evdir, exist_ok=True)
-    with open(os.path.join(evdir, f"{prop}.json"), "w") as f:
+    # a partial run (--only: development aid, the bounded tier is skipped) does not replace the evidence of the full check
+    evname = f"{prop}.json" if not only else f"{prop}.partial.json"
+    with open(os.path.join(evdir, evname), "w") as f:
         json.dump(ev, f, indent=1, default=str)
 
     # ---- report
